@@ -69,7 +69,9 @@ fn make_builder(cfg: &Cfg, sh: &Shared, hseed: u64) -> CacheBuilder<u32, Val, Fi
   if cfg.cap > 0 {
     b = b.capacity(cfg.cap);
   }
-  let shard_cap = if cfg.cap > 0 { cfg.cap.div_ceil(cfg.shards as u64) } else { 1 << 20 };
+  // (an unbounded cache gets a policy whose own capacity is far above anything a history stores, so
+  // that the policy never evicts on admission; not huge either: TinyLFU sizes its sketch by it)
+  let shard_cap = if cfg.cap > 0 { cfg.cap.div_ceil(cfg.shards as u64) } else { 4096 };
   b = match cfg.policy.as_str() {
     "tinylfu" => b.cache_policy_factory(move || Box::new(TinyLfuPolicy::new(shard_cap))),
     "lru" => b.cache_policy_factory(|| Box::new(LruPolicy::new())),
@@ -216,6 +218,7 @@ pub struct Sim {
   deadlines: Vec<u64>,
   /// notifications of the previous cache collected just before a restore
   carry_notes: Vec<Note>,
+  last_rec: Instant,
   pub aborted: bool,
 }
 
@@ -253,6 +256,7 @@ impl Sim {
       writes_since_quiet: 0,
       deadlines: Vec::new(),
       carry_notes: Vec::new(),
+      last_rec: Instant::now(),
       aborted: false,
     };
     let c = &s.cfg;
@@ -313,6 +317,12 @@ impl Sim {
     };
     let m = rec.as_object_mut().unwrap();
     m.insert("t".into(), json!(clock_now_ms()));
+    if std::env::var("FV_TIMING").is_ok() {
+      // debugging aid: real milliseconds since the previous record (makes the output non-deterministic)
+      let el = self.last_rec.elapsed().as_millis() as u64;
+      self.last_rec = Instant::now();
+      m.insert("real_ms".into(), json!(el));
+    }
     m.insert("cr".into(), json!(signed_cost(cr)));
     let mut all = std::mem::take(&mut self.carry_notes);
     all.extend(notes);
